@@ -5,6 +5,7 @@
   the API lint and the byte-level round trip of harness/props/c06.py.
 -/
 import VC2.Proofs.SerdesTree
+import VC2.Props.C21
 namespace VC2.Props.C06
 open VC2 VC2.Model.Serdes VC2.Proofs.Serdes
 
@@ -12,9 +13,22 @@ open VC2 VC2.Model.Serdes VC2.Proofs.Serdes
     codes are canonical and every bit string, if the deserialiser reads values `vs` and stops in
     front of `rest`, the serialiser given `vs` writes exactly the bits that were consumed -/
 theorem deserialise_then_serialise_fields (C : Codec) (ks : List Prim) (bits : List Bool) (vs : List Val)
-    (rest : List Bool) (hc : ∀ k ∈ ks, CompleteAt C k) (h : desPrims C ks bits = some (vs, rest)) :
-    ∃ used, serPrims C ks vs = some used ∧ bits = used ++ rest :=
-  desPrims_ser C ks bits vs rest hc h
+    (rest : List Bool) (hc : ∀ k ∈ ks, CompleteAt C k) (h : desPrims C false ks bits = some (vs, rest)) :
+    ∃ used, serPrims C ks vs = some used ∧ bits = used ++ rest := by
+  obtain ⟨used, hs, hr⟩ := desPrims_ser C false ks bits vs rest hc h
+  exact ⟨used, hs, by simpa [RealOf] using hr⟩
+
+/-- … and inside a bounded block: the values may have been completed by 1-bits from beyond the end of
+    the block; the serialiser then writes a code whose stored part is exactly the bits that were there
+    and whose part past the end consists of 1-bits only -/
+theorem deserialise_then_serialise_fields_in_block (C : Codec) (ks : List Prim) (bits : List Bool) (vs : List Val)
+    (rest : List Bool) (hc : ∀ k ∈ ks, CompleteAt C k) (h : desPrims C true ks bits = some (vs, rest)) :
+    ∃ used n, serPrims C ks vs = some used ∧ n ≤ used.length ∧ bits = used.take n ++ rest ∧
+      (used.drop n).all id = true ∧ (n < used.length → rest = []) := by
+  obtain ⟨used, hs, hr⟩ := desPrims_ser C true ks bits vs rest hc h
+  unfold RealOf at hr; simp only [if_true] at hr
+  obtain ⟨n, h1, h2, h3, h4⟩ := hr
+  exact ⟨used, n, hs, h1, h2, h3, h4⟩
 
 /-- **the fixed-width codes are canonical** in the C20 bit model: booleans, n-bit and n-byte
     unsigned integers (parse codes, parse offsets, length fields), bit arrays (padding, unused
@@ -41,14 +55,8 @@ theorem padding_bits_survive (n : Nat) (bits : List Bool) (v : Leaf) (rest : Lis
 theorem reserialised_output_deserialises_equal (prog : List Stmt) (d : Dict) (bits : List Bool) (used : Dict)
     (h : serialise bitCodec prog d = some (bits, used)) :
     deserialise bitCodec prog bits = some (used, []) := by
-  have := VC2.Proofs.Serdes.serBody_des bitCodec bitCodec_sound prog 0 d [] bits used []
-  unfold serialise at h
-  split at h
-  · rename_i b u hb
-    simp at h; obtain ⟨h1, h2⟩ := h; subst h1 h2
-    have r := (serBody_des bitCodec bitCodec_sound prog 0 d [] b u [] hb (by intro k _; rfl) []).1
-    simpa [deserialise] using r
-  · cases h
+  have := VC2.Props.C21.serialise_then_deserialise_bits prog d bits used h []
+  simpa using this
 
 /-- **every code of the bit layer is canonical**, including the interleaved exp-Golomb codes of
     `read_uint` / `read_sint`: whatever bits are read, writing the value read gives back exactly
@@ -65,20 +73,20 @@ theorem all_codes_canonical : ∀ k, CompleteAt bitCodec k := by
   | sint => exact bitCodec_complete_sint
 
 /-- **C06 on the framework model**: for every description program (nested sub-descriptions, lists
-    of values and of sub-descriptions, bounded blocks with their trailing unused bits, byte alignment,
-    computed values) and every bit string, if the deserialiser parses `bits` into the description `d`
+    of values and of sub-descriptions, bounded blocks — with their trailing unused bits, or with values
+    that run past the end of the block and are completed by 1-bits —, byte alignment, computed values) and every bit string, if the deserialiser parses `bits` into the description `d`
     and stops in front of `rest`, then serialising `d` with the same program succeeds, uses `d` up
     (`verify_complete`), and writes exactly the bits that were consumed -/
 theorem deserialise_then_serialise (prog : List Stmt) (bits : List Bool) (d : Dict) (rest : List Bool)
     (h : deserialise bitCodec prog bits = some (d, rest)) :
     ∃ used, serialise bitCodec prog d = some (used, d) ∧ bits = used ++ rest := by
   unfold deserialise at h
-  obtain ⟨new, used, hn, hb, _, hs⟩ := desBody_ser bitCodec all_codes_canonical prog 0 [] bits d rest h
+  obtain ⟨new, used, hn, hb, _, hs⟩ := desBody_ser bitCodec all_codes_canonical prog false 0 [] bits d rest h
   simp only [List.nil_append] at hn
   subst hn
   have := hs [] (by intro k _; rfl)
   simp only [List.append_nil, List.nil_append] at this
-  exact ⟨used, by simp [serialise, this], hb⟩
+  exact ⟨used, by simp [serialise, this], by simpa [RealOf] using hb⟩
 
 /-- … and the two halves together: the re-serialised bits deserialise to the same description -/
 theorem round_trip_is_stable (prog : List Stmt) (bits : List Bool) (d : Dict)
@@ -92,13 +100,19 @@ theorem round_trip_is_stable (prog : List Stmt) (bits : List Bool) (d : Dict)
 /-! ### non-vacuity -/
 example : bitCodec.dec (.uintLit 1) [true, false, true, true, false, false, true, false, true, true]
     = some (.int 178, [true, true]) := by decide +kernel
-example : (desPrims bitCodec [.bool, .nbits 3, .bitarray 2] [true, true, false, true, false, true, true]).map (·.2)
+example : (desPrims bitCodec false [.bool, .nbits 3, .bitarray 2] [true, true, false, true, false, true, true]).map (·.2)
     = some [true] := by decide +kernel
 -- a nested program with exp-Golomb fields, a bounded block with two unused bits and byte alignment
 def prog1 : List Stmt := [.prim "n" .uint, .block "unused" 6 [.prim "a" .sint], .align "al", .sub "s" [.prim "b" (.nbits 2)]]
 def bits1 : List Bool := [false, true, true,  false, false, true, true,  true, false,  false, false, false, false, false, false, false,  true, false, true]
 example : (deserialise bitCodec prog1 bits1).map (·.2) = some [true] := by decide +kernel
 example : (deserialise bitCodec prog1 bits1).bind (fun r => (serialise bitCodec prog1 r.1).map (·.1)) = some (bits1.take 18) := by
+  decide +kernel
+-- a block that ends inside its contents: the three signed values of a 5-bit block are 1, -2 and 0 (the
+-- sign of the second and the whole third value come from beyond the end); re-serialising gives the 7 bits back
+def prog2 : List Stmt := [.block "pad" 5 [.primList "c" [.sint, .sint, .sint]], .prim "after" (.nbits 2)]
+example : ((deserialise bitCodec prog2 [false, false, true, false, false, true, false]).bind
+    (fun r => serialise bitCodec prog2 r.1)).map (·.1) = some [false, false, true, false, false, true, false] := by
   decide +kernel
 
 end VC2.Props.C06
